@@ -39,8 +39,23 @@ def _iterate_calc_tree_and_ground(
                         parameters_map[lifted_function_params[index]]
                     ] = lifted_function.signature[parameter_name]
 
+            # the signature is keyed by the object names, so repeated objects are recorded separately
+            # (the same bookkeeping that the problem parser uses).
+            grounded_objects = [
+                parameter_name
+                if parameter_name in domain.constants
+                else parameters_map[parameter_name]
+                for parameter_name in lifted_function_params
+            ]
+            repeating_objects = {
+                object_name: grounded_objects.count(object_name)
+                for object_name in grounded_objects
+                if grounded_objects.count(object_name) > 1
+            }
             grounded_function = PDDLFunction(
-                name=lifted_function.name, signature=grounded_signature
+                name=lifted_function.name,
+                signature=grounded_signature,
+                repeating_variables=repeating_objects,
             )
             return AnyNode(id=str(grounded_function), value=grounded_function)
 
